@@ -18,7 +18,7 @@ def key_of(r):
 def run(tier, seed):
     rep = core.Report(PROP, tier, seed)
     rep.rule = ("expansion-only corpus (token-soup fn/mod/impl inputs + realistic fn/mod cases, biased to many non-identifier "
-                "parameters); every source is instantiated 2-5 times at different positions; the workspace is built k times "
+                "parameters, entraited traits with every delegation option); every source is instantiated 2-5 times in different files at different line / column offsets; the workspace is built k times "
                 "with shuffled shard/module order and perturbed environment; records grouped by (variant, attr, input) must "
                 "agree on the output tokens (spacing included). non-trivial = group with >= 3 observations from >= 2 processes")
     n = 500 if tier == "quick" else 2500
@@ -42,6 +42,15 @@ def run(tier, seed):
         src = "#[::entrait::entrait(Subj%s)] /*@inv*/\n%s\n" % (", no_deps" if f.deps_kind == "no_deps" else "", f.source(""))
         base.append(core.Case("n_%05d" % k, src, run=False, expect="expand"))
         k += 1
+    # entraited traits with every delegation / mock option
+    from ..gen import traits as gtraits
+    TRAIT_ATTRS = ["", "TImpl, delegate_by = DelegateT", "pub TImpl, delegate_by = ref", "TImpl, delegate_by=ref", "delegate_by = Borrow",
+                   "delegate_by = ref", "delegate_by = Self", "delegate_by = SomeTrait", "mock_api = TMock", "unimock, mock_api = TMock",
+                   "mockall", "TImpl, delegate_by = DelegateT, mock_api = TMock, unimock = false", "pub(crate) TImpl, delegate_by = Borrow"]
+    for i in range(n // 3):
+        t = gtraits.random_trait(rng, "Subj", with_async_trait=rng.random() < 0.2)
+        src = "#[::entrait::%s(%s)] /*@inv*/\n%s\n" % (rng.choice(["entrait", "entrait_export"]), rng.choice(TRAIT_ATTRS), t.source())
+        base.append(core.Case("t_%05d" % i, src, run=False, expect="expand"))
     groups = {}
     total_records = 0
     procs = set()
@@ -64,7 +73,9 @@ def run(tier, seed):
                 continue   # builds with very few jobs only take a sample of the corpus (wall-clock budget)
             for d in range(rng.randint(2, 5) if b == 0 else rng.randint(1, 2)):
                 cid = "i%d_%d_%s" % (b, d, c.id)
-                inst.append(core.Case(cid, c.src.replace(c.id, "IDENT"), run=False, expect="expand"))
+                # every instance sits at its own line / column (blank lines and a block comment in front of it)
+                shift = "\n" * rng.randint(0, 40) + ("/*" + "-" * rng.randint(0, 30) + "*/ " if rng.random() < 0.7 else "")
+                inst.append(core.Case(cid, shift + c.src.replace(c.id, "IDENT"), run=False, expect="expand"))
         rng.shuffle(inst)
         ws = core.Workspace(PROP, "b%d" % b, expand_only=True, vattr=True, nshards=rng.choice([5, 8, 16, 11]))
         ws.extend(inst)
